@@ -26,7 +26,7 @@ func smallPt(r *Rng, k int) P { return P{X: int64(r.Intn(k)), Y: int64(r.Intn(k)
 
 func init() {
 	stages["c14-search"] = func(ctx *Ctx, cnt func(q, t int) int, replay string) Result {
-		col := NewCollector("C14", "search", "operand-value generator (coordinate differences in {0,±1,±2,3,2^10,2^26±1}, magnitudes up to 2^29) and small-grid polygons; isCollinear, PointInPolygon, GetBounds64, Area64, IsPositive64 judged by exact integer arithmetic in the Lean oracle; non-trivial = a non-degenerate instance (collinear triple with distinct points or cross of magnitude ≤ 4, pip query on an edge line or vertex ordinate, path of ≥ 3 vertices); distinct by input")
+		col := NewCollector("C14", "search", "operand-value generator (coordinate differences in {0,±1,±2,3,2^10,2^26±1}, magnitudes up to 2^29) and small-grid polygons; isCollinear, PointInPolygon, GetBounds64, Area64, IsPositive64 (also on sliver triangles of doubled area ±1 at 2^29) judged by exact integer arithmetic in the Lean oracle; non-trivial = a non-degenerate instance (collinear triple with distinct points or cross of magnitude ≤ 4, pip query on an edge line or vertex ordinate, path of ≥ 3 vertices); distinct by input")
 		n := cnt(40000, 2000000)
 		parallelFor(ctx, n, true, col, func(o *Oracle, i int) {
 			r := NewRng(ctx.Seed, "c14", i)
@@ -97,6 +97,22 @@ func init() {
 				line = fmt.Sprintf("c14 collinear %d %d %d %d %d %d %d", a.X, a.Y, pt.X, pt.Y, b.X, b.Y, b2i(gc))
 				if resp := o.Ask(line); !strings.HasPrefix(resp, "ok") {
 					col.Violate(Violation{Property: "C14", Kind: "isCollinear", Signature: collinearSig(a, pt, b, line), Detail: line + " -> " + resp, Case: map[string]interface{}{"fn": "isCollinear", "pts": []P{a, pt, b}, "got": gc}, Stream: "c14", Index: i, Seed: ctx.Seed})
+				}
+				// and as a sliver triangle of doubled area ±1 with coordinates up to 2^29: orientation and area
+				// must still be exact (products beyond 2^53)
+				for _, tri := range []clip.Path64{{a, pt, b}, {b, pt, a}} {
+					if pt == b {
+						break
+					}
+					a2 := clip.Area64(tri) * 2
+					line = fmt.Sprintf("c14 area2 %s %d", pathStr(tri), int64(a2))
+					if resp := o.Ask(line); !strings.HasPrefix(resp, "ok") || a2 != math.Trunc(a2) {
+						col.Violate(Violation{Property: "C14", Kind: "Area64", Signature: sigOf(line), Detail: line + " -> " + resp, Case: map[string]interface{}{"fn": "Area64", "path": tri, "got": a2 / 2}, Stream: "c14", Index: i, Seed: ctx.Seed})
+					}
+					line = fmt.Sprintf("c14 positive %s %d", pathStr(tri), b2i(clip.IsPositive64(tri)))
+					if resp := o.Ask(line); !strings.HasPrefix(resp, "ok") {
+						col.Violate(Violation{Property: "C14", Kind: "IsPositive64", Signature: sigOf(line), Detail: line + " -> " + resp, Case: map[string]interface{}{"fn": "IsPositive64", "path": tri}, Stream: "c14", Index: i, Seed: ctx.Seed})
+					}
 				}
 			case 1: // point in polygon
 				k := r.Range(4, 7)
